@@ -1487,7 +1487,8 @@ def model_requests(case, obs):
     if obs.get("version") == "1.0" and k in ("v1", "file"):
         if not HAVE_NUMBERED:
             return []
-        reqs = [{"m": "C13.numbered", "lines": obs["raw"]}, {"m": "C13.numbered", "lines": obs["eraw"]}]
+        # the original goes in as CONTENT (Lean's own `splitNL` = `content.split("\n")`, theorems `numbered_content_*`), the edited text as lines
+        reqs = [{"m": "C13.numbered", "text": "\n".join(obs["raw"])}, {"m": "C13.numbered", "lines": obs["eraw"]}]
         edits = _edits_of(case, obs)
         if len(edits) == 1 and edits[0]["op"] == "scale":
             # Lean's own `scaleLine k` on the original lines (the edit of `numbered_lines_scale_partial`)
